@@ -54,19 +54,66 @@ func checkC16(c *Ctx) {
 	c.Decides("GF: RerootFirst, which the insertion generators call for an unrooted request, ends with a non-nil error when no node with three neighbours exists (the two-tip case): that error is what rejects the size the guard lets through")
 	if fi := c.Func("tree", "Tree", "RerootFirst"); fi != nil {
 		info := fi.Pkg.TypesInfo
-		good := false
-		var at token.Pos = fi.Decl.Pos()
-		if n := len(fi.Decl.Body.List); n > 0 {
-			if r, ok := fi.Decl.Body.List[n-1].(*ast.ReturnStmt); ok && len(r.Results) == 1 {
-				at = r.Pos()
-				good = !isNilIdent(info, r.Results[0]) && identObj(info, r.Results[0]) == nil
-				if cl, ok := unparen(r.Results[0]).(*ast.CallExpr); ok {
-					fn := calleeOf(info, cl)
-					good = fn != nil && fn.Pkg() != nil && ((fn.Pkg().Path() == "errors" && fn.Name() == "New") || (fn.Pkg().Path() == "fmt" && fn.Name() == "Errorf"))
-				}
+		// every value RerootFirst returns is the result of Reroot or a constructed error: there is no
+		// way out with nil that has not re-rooted the tree
+		fromOK := func(e ast.Expr) bool {
+			cl, ok := unparen(e).(*ast.CallExpr)
+			if !ok {
+				return false
 			}
+			fn := calleeOf(info, cl)
+			if fn == nil || fn.Pkg() == nil {
+				return false
+			}
+			return isRepoFunc(fn, "tree", "Tree", "Reroot") || (fn.Pkg().Path() == "errors" && fn.Name() == "New") || (fn.Pkg().Path() == "fmt" && fn.Name() == "Errorf")
 		}
-		c.Check(good, "GF", "tree.Tree.RerootFirst/not-found-is-an-error", at, "falls through to a constructed error", "RerootFirst does not end with a constructed error when its search finds no node with three neighbours: an unrooted two-tip request is no longer refused and the generator returns a tree rooted on a tip").Clause = "Sizes below the documented minimum are rejected with an error rather than a crash"
+		var named types.Object
+		if rl := fi.Decl.Type.Results; rl != nil && len(rl.List) == 1 && len(rl.List[0].Names) == 1 {
+			named = info.Defs[rl.List[0].Names[0]]
+		}
+		varOK := func(o types.Object) bool {
+			n, good := 0, true
+			ast.Inspect(fi.Decl.Body, func(m ast.Node) bool {
+				if as, ok := m.(*ast.AssignStmt); ok {
+					for i, l := range as.Lhs {
+						if identObj(info, l) == o {
+							n++
+							if len(as.Lhs) != len(as.Rhs) || !fromOK(as.Rhs[i]) {
+								good = false
+							}
+						}
+					}
+				}
+				return true
+			})
+			return good && n > 0
+		}
+		good, nret := true, 0
+		var at token.Pos = fi.Decl.Pos()
+		ast.Inspect(fi.Decl.Body, func(m ast.Node) bool {
+			if _, ok := m.(*ast.FuncLit); ok {
+				return false
+			}
+			r, ok := m.(*ast.ReturnStmt)
+			if !ok {
+				return true
+			}
+			nret++
+			okRet := false
+			switch {
+			case len(r.Results) == 0:
+				okRet = named != nil && varOK(named)
+			case len(r.Results) == 1 && fromOK(r.Results[0]):
+				okRet = true
+			case len(r.Results) == 1 && !isNilIdent(info, r.Results[0]) && identObj(info, r.Results[0]) != nil:
+				okRet = varOK(identObj(info, r.Results[0]))
+			}
+			if !okRet {
+				good, at = false, r.Pos()
+			}
+			return true
+		})
+		c.Check(good && nret > 0, "GF", "tree.Tree.RerootFirst/not-found-is-an-error", at, "every return hands back the result of Reroot or a constructed error", "RerootFirst has a way out that returns neither the result of Reroot nor a constructed error (a plain nil when its search finds no node with three neighbours): an unrooted two-tip request is no longer refused and the generator returns a tree rooted on a tip").Clause = "Sizes below the documented minimum are rejected with an error rather than a crash"
 	}
 	c.Decides("BUF-FLUSH: every bufio.Writer of the repository (none in the generate commands today) is flushed, and not by a deferred Flush that would run after an ordinary close of its file")
 	c.bufFlush("BUF-FLUSH", c.All, "returns each of the ... topologies exactly once")
